@@ -17,12 +17,26 @@ import IcingaModel.C18.Model
 namespace Icinga.C18
 
 /-- The user may act on `o` under the required permission `perm`: some entry matches `perm` and has no
-    filter, or its filter is true of `o`. -/
+    filter, or its filter is true of `o` — evaluated on `o` alone, i.e. in a frame that holds nothing but
+    what evaluation binds for `o` itself (`bindSvc none o`); a filter that raises an error is not true. -/
 def Allowed (u : User) (perm : String) (o : Obj) : Prop :=
-  ∃ p ∈ u, wildMatch p.pattern perm = true ∧ (p.filter = none ∨ ∃ f, p.filter = some f ∧ f o = true)
+  ∃ p ∈ u, wildMatch p.pattern perm = true ∧
+    (p.filter = none ∨ ∃ f, p.filter = some f ∧ f (bindSvc none o) o = some true)
 
 def permAllows (perm : String) (o : Obj) (p : Perm) : Bool :=
-  wildMatch p.pattern perm && (match p.filter with | none => true | some f => f o)
+  wildMatch p.pattern perm && (match p.filter with | none => true | some f => f (bindSvc none o) o == some true)
+
+/-- Every permission filter of the user reads only names that evaluation binds for the visited object
+    itself: its value on `o` does not depend on what earlier visits left in the frame. -/
+def FrameIndependent (u : User) : Prop :=
+  ∀ p ∈ u, ∀ f, p.filter = some f → ∀ st o, f (bindSvc st o) o = f (bindSvc none o) o
+
+/-- The situations in which the permission filter of every visited object is evaluated as if alone:
+    a fresh frame per object (the repaired code), frame-independent filters, or a request that can only
+    visit objects of one kind with respect to the `service` binding (no Service at all, or only Services —
+    in particular every single-type QueryDescription: object query / modify / delete). -/
+def IsoVisit (shared : Bool) (types : List String) (u : User) : Prop :=
+  shared = false ∨ FrameIndependent u ∨ (∀ t ∈ types, t ≠ "Service") ∨ (∀ t ∈ types, t = "Service")
 
 /-- `Allowed`, executable. -/
 def allowedB (u : User) (perm : String) (o : Obj) : Bool := u.any (permAllows perm o)
@@ -37,6 +51,7 @@ structure Obs where
 
 inductive Clause
   | rejectedFirst | returnedExists | returnedAllowed | forbiddenByName | grantedAllowed | grantNeedsMatch
+  | orderIndependent
   deriving DecidableEq, Repr
 
 def Clause.name : Clause → String
@@ -46,6 +61,7 @@ def Clause.name : Clause → String
   | .forbiddenByName => "forbidden_by_name_is_error"
   | .grantedAllowed => "granted_access_is_allowed"
   | .grantNeedsMatch => "grant_needs_matching_permission"
+  | .orderIndependent => "result_independent_of_visit_order"
 
 def isPermissionError : Except Err (List Obj) → Bool
   | .error .permission => true
@@ -85,6 +101,19 @@ def specAccess (u : User) (perm : String) (o : Obj) (granted : Bool) : Option Cl
 def specGrant (u : User) (perm : String) (granted : Bool) : Option Clause :=
   if perm == "" then none
   else if granted && !someMatch u perm then some .grantNeedsMatch else none
+
+/-- Two outcomes agree up to the order of the returned objects (which error was raised first may depend on
+    the order in which names are visited; whether the request fails may not). -/
+def sameOutcome : Except Err (List Obj) → Except Err (List Obj) → Bool
+  | .ok a, .ok b => a.isPerm b
+  | .error _, .error _ => true
+  | _, _ => false
+
+/-- The property speaks of *objects*, not of requests: whether the user may act on an object must not depend
+    on which other objects the same request visits before it.  Observable form: the same request with the
+    names of a plural list permuted has the same outcome. -/
+def specOrder (r1 r2 : Except Err (List Obj)) : Option Clause :=
+  if sameOutcome r1 r2 then none else some .orderIndependent
 
 /-! ### Declarative meaning of the wildcard language (for `wildcard_match_spec`) -/
 
